@@ -22,3 +22,6 @@ import Mb2.Props.FnsMisc
 import Mb2.Props.FnsEfi
 import Mb2.Props.FnsElfOpen
 import Mb2.Props.FnsCtor
+import Mb2.Props.FnsFb
+import Mb2.Props.FnsElfIter
+import Mb2.Props.FnsGetters
